@@ -142,6 +142,16 @@ fn opath_resolve<Fd: AsFd, P: AsRef<Path>>(
     rflags: ResolverFlags,
 ) -> Result<OwnedFd, Error> {
     let root = root.as_fd();
+
+    // RESOLVE_BENEATH refuses absolute paths outright.
+    if path.as_ref().is_absolute() {
+        Err(ErrorImpl::OsError {
+            operation: "emulated RESOLVE_BENEATH".into(),
+            source: IOError::from_raw_os_error(libc::EXDEV),
+        })
+        .wrap("cannot resolve absolute paths with restricted procfs resolver")?
+    }
+
     let root_mnt_id = utils::fetch_mnt_id(root, "")?;
 
     // We only need to keep track of our current dirfd, since we are applying
